@@ -195,9 +195,9 @@ func main() {
 			}
 		}
 		rng := hutil.NewRng(hutil.SeedFromEnv())
-		n := 120
+		n := 100
 		if tier == "thorough" {
-			n = 4000
+			n = 1500
 		}
 		for i := 0; i < n; i++ {
 			cases = append(cases, genWS(rng, i))
